@@ -53,8 +53,8 @@ RECORD = "src/core/record.rs"
 PROPS["T"] = {  # scratch group for development
     "technique": "dev", "level_text": "dev", "level_note": "dev",
     "kani": [
-        H(SEQ, "c10_crc32c_sw_matches_bitwise", ""), H(SEQ, "c10_crc32c_streaming", ""), H(SEQ, "c10_crc32c_known_answer", ""),
-        H(SEQ, "c10_record_token_matches_reference", ""), H(SEQ, "c10_seq_token_matches_reference", ""), H(SEQ, "c10_stamp_seq_token", ""),
+        H(SEQ, "c10_crc32c_byte_step", ""), H(SEQ, "c10_crc32c_sw_matches_bitwise_3", ""), H(SEQ, "c10_crc32c_streaming", ""), H(SEQ, "c10_crc32c_known_answer", ""),
+        H(SEQ, "c10_record_token_coverage", ""), H(SEQ, "c10_record_token_ignores_seq_field", ""), H(SEQ, "c10_seq_token_coverage", ""), H(SEQ, "c10_stamp_seq_token", ""),
         H(SEQ, "c17_header_range_total", ""), H(SEQ, "c17_header_range_block", ""),
         H(FMT, "c10_serialize_header_v2", ""), H(FMT, "c10_serialize_header_v1", ""), H(FMT, "c17_parse_record_v2_total", ""),
         H(FMT, "c17_parse_record_v1_total", ""), H(FMT, "c10_roundtrip_v2", ""), H(FMT, "c05_extent_length_agreement", ""),
